@@ -242,6 +242,9 @@ func (c *client) onConnClosed(conn internalConn) {
 	if conns.len() > 0 {
 		return
 	}
+	if c.closed_.IsSet() {
+		return
+	}
 
 	// Clear connected
 	if c.connected_.IsSet() {
@@ -262,6 +265,9 @@ func (c *client) onConnChannelsReached(conn internalConn) {
 
 	max := c.options.ClientMaxConns
 	if max <= 0 {
+		return
+	}
+	if c.closed_.IsSet() {
 		return
 	}
 
